@@ -119,8 +119,32 @@ Definition trim_set (cut t : bytes) : bytes := rev (drop_set cut (rev (drop_set 
 Definition passes (pairs : list (bytes * bytes)) (t : bytes) : bytes :=
   fold_left (fun acc pr => replace_all (fst pr) (snd pr) acc) pairs t.
 
-(* JsonFromEEBUSJson, byte for byte *)
-Definition from_eebus (t : bytes) : bytes := trim_set eebus_trim_cutset (passes eebus_pairs t).
+(* the replacements applied to the whole text, string literals included: JsonFromEEBUSJson
+   as it was before the fix (kept: the table says which variant the source has) *)
+Definition from_eebus_global (t : bytes) : bytes := trim_set eebus_trim_cutset (passes eebus_pairs t).
+
+(* The fixed JsonFromEEBUSJson: the text is cut at string literals; the passes are applied
+   to each stretch between them, the literals (quotes included) are copied.
+   mode 0: outside, [seg] = the current stretch, reversed;
+   mode 1: inside a string literal;  mode 2: inside, right after a backslash.
+   An unterminated literal runs to the end of the text. *)
+Fixpoint scan (mode : N) (seg : bytes) (t : bytes) : bytes :=
+  match t with
+  | [] => match mode with 0 => passes eebus_pairs (rev seg) | _ => [] end
+  | c :: t' =>
+      match mode with
+      | 0 => if c =? 34 then passes eebus_pairs (rev seg) ++ c :: scan 1 [] t'
+             else scan 0 (c :: seg) t'
+      | 1 => c :: (if c =? 92 then scan 2 [] t' else if c =? 34 then scan 0 [] t' else scan 1 [] t')
+      | _ => c :: scan 1 [] t'
+      end
+  end.
+
+Definition from_eebus_scanning (t : bytes) : bytes := trim_set eebus_trim_cutset (scan 0 [] t).
+
+(* JsonFromEEBUSJson, byte for byte; eebus_scans_strings is regenerated from the source *)
+Definition from_eebus (t : bytes) : bytes :=
+  if eebus_scans_strings then from_eebus_scanning t else from_eebus_global t.
 
 (* ------------------------------------------------------------------ side conditions *)
 (* every byte that occurs in a search pattern *)
@@ -152,6 +176,32 @@ Fixpoint lits_ok (d : json) : bool :=
   end.
 
 Definition is_nil {A} (l : list A) : bool := match l with [] => true | _ => false end.
+
+(* Lexical well-formedness of a literal, all the fixed conversion needs:
+   a string literal is a quote, then bytes in which a quote only follows a backslash
+   escape, then the closing quote; any other literal (number, true, false, null) is
+   non-empty and contains no quote and no byte of a search pattern ([ ] { } ,). *)
+Fixpoint str_tail_ok (esc : bool) (m : bytes) : bool :=
+  match m with
+  | [] => false
+  | c :: m' =>
+      if esc then str_tail_ok false m'
+      else if c =? 92 then str_tail_ok true m'
+      else if c =? 34 then is_nil m'
+      else str_tail_ok false m'
+  end.
+Definition str_lit_ok (l : bytes) : bool :=
+  match l with c :: m => (c =? 34) && str_tail_ok false m | [] => false end.
+Definition atom_ok (l : bytes) : bool :=
+  negb (is_nil l) && forallb (fun c => negb (c =? 34) && negb (in_set c pat_bytes)) l.
+Definition lit_wf (l : bytes) : bool := str_lit_ok l || atom_ok l.
+
+Fixpoint lits_wf (d : json) : bool :=
+  match d with
+  | JS l => lit_wf l
+  | JA vs => forallb lits_wf vs
+  | JO ms => forallb (fun m => let '(k, v) := m in str_lit_ok k && lits_wf v) ms
+  end.
 
 Fixpoint has_empty_array (d : json) : bool :=
   match d with
